@@ -640,6 +640,110 @@ theorem SimT.after {np : String → Option Prog} {code : List Op} {dmap : List N
   | exitCase m => exact h1.trans h2
   | timeout => trivial
 
+/-! ### a `break` never travels out of a context that does not allow it -/
+
+def NoBrk (r : Res) : Prop := ∀ t m, r ≠ .brk t m
+
+theorem ofR_noBrk {α : Type} (r : R α) (tok : Nat) (k : α → Mach → Res) (h : ∀ a m, NoBrk (k a m)) : NoBrk (ofR r tok k) := by
+  unfold ofR
+  split
+  · exact h _ _
+  · intro t m e; cases e
+  · intro t m e; cases e
+
+theorem noBrk_ok (m : Mach) : NoBrk (.ok m) := fun _ _ e => by cases e
+theorem noBrk_timeout : NoBrk .timeout := fun _ _ e => by cases e
+
+/-- neither a statement evaluated where `break` is not allowed, nor the iterations of a counted loop, ever
+    hand a travelling `break` to their surroundings -/
+theorem no_brk_aux (np : String → Option Prog) : ∀ f,
+    (∀ st m r, WFS st false r = true → NoBrk (evalS np f st m)) ∧ (∀ tl a m, NoBrk (doIter np f tl a m)) := by
+  intro f
+  induction f with
+  | zero => exact ⟨fun _ _ _ _ => by simp only [evalS]; exact noBrk_timeout, fun _ _ _ => by simp only [doIter]; exact noBrk_timeout⟩
+  | succ f ih =>
+    obtain ⟨ihE, ihD⟩ := ih
+    refine ⟨fun st m r hw => ?_, fun tl a m => ?_⟩
+    · cases st with
+      | skip => simp only [evalS]; exact noBrk_ok m
+      | op t o => simp only [evalS]; exact ofR_noBrk _ _ _ (fun _ m => noBrk_ok m)
+      | seq a b =>
+        simp only [WFS, Bool.and_eq_true] at hw
+        simp only [evalS]
+        have ha := ihE a m r hw.1
+        split
+        · exact ihE b _ r hw.2
+        · exact ha
+      | ifThen t a =>
+        simp only [WFS] at hw
+        simp only [evalS]
+        exact ofR_noBrk _ _ _ (fun c m => by split; exact ihE a m false hw; exact noBrk_ok m)
+      | ifElse t te a b =>
+        simp only [WFS, Bool.and_eq_true] at hw
+        simp only [evalS]
+        exact ofR_noBrk _ _ _ (fun c m => by split; exact ihE a m false hw.1; exact ihE b m false hw.2)
+      | untilLoop t a =>
+        simp only [WFS] at hw
+        simp only [evalS]
+        have ha := ihE a m false hw
+        split
+        · exact ofR_noBrk _ _ _ (fun c m => by split; exact noBrk_ok m; exact ihE (.untilLoop t a) m r (by simpa [WFS] using hw))
+        · exact ha
+      | whileLoop tw tr c a =>
+        simp only [evalS]
+        have hc : WFS c false false = true := by simp only [WFS, Bool.and_eq_true] at hw; exact hw.1
+        have hcn := ihE c m false hc
+        split
+        · refine ofR_noBrk _ _ _ (fun b m => ?_)
+          split
+          · split
+            · exact ihE (.whileLoop tw tr c a) _ r hw
+            · exact noBrk_ok _
+            · rename_i r1 hne1 hne2
+              intro t2 m2 e2
+              exact hne2 t2 m2 e2
+          · exact noBrk_ok m
+        · exact hcn
+      | repeatLoop tr a =>
+        simp only [evalS]
+        split
+        · exact ihE (.repeatLoop tr a) _ r hw
+        · exact noBrk_ok _
+        · rename_i r1 hne1 hne2
+          intro t2 m2 e2
+          exact hne2 t2 m2 e2
+      | doLoop td tl a =>
+        simp only [evalS]
+        exact ofR_noBrk _ _ _ (fun l m => by split; exact ihD tl a _; exact noBrk_ok m)
+      | brk t => simp [WFS] at hw
+      | caseS a =>
+        simp only [WFS] at hw
+        simp only [evalS]
+        have ha := ihE a m true hw
+        split
+        · exact noBrk_ok _
+        · exact ha
+      | arm tOf tEndof body =>
+        simp only [WFS, Bool.and_eq_true] at hw
+        simp only [evalS]
+        refine ofR_noBrk _ _ _ (fun hit m => ?_)
+        split
+        · have hb := ihE body m false hw.2
+          split
+          · intro t m e; cases e
+          · exact hb
+        · exact noBrk_ok m
+    · simp only [doIter]
+      split
+      · refine ofR_noBrk _ _ _ (fun more m => ?_)
+        split
+        · exact ihD tl a m
+        · exact ofR_noBrk _ _ _ (fun _ m => noBrk_ok m)
+      · exact ofR_noBrk _ _ _ (fun _ m => noBrk_ok m)
+      · rename_i r1 hne1 hne2
+        intro t2 m2 e2
+        exact hne2 t2 m2 e2
+
 /-! ### `exitCase` only comes out of an arm in the spine of a `case` -/
 
 def NoExit (r : Res) : Prop := ∀ m, r ≠ .exitCase m
